@@ -96,25 +96,27 @@ func Int64(tag string) int64          { return int64(next(tag, "b64")) }
 func Uint64(tag string) uint64        { return next(tag, "b64") }
 func Int32(tag string) int32          { return int32(next(tag, "b32")) }
 func Rune(tag string) rune            { return rune(next(tag, "b32")) }
-// IntIn returns a symbolic int in [lo,hi] (natively: the replayed value).
+
+// IntIn returns a symbolic int in [lo,hi] (natively: the replayed value of
+// the narrowest signed bit-vector that holds the range).
 func IntIn(tag string, lo, hi int) int {
-	suffix := "b64"
-	switch {
-	case lo >= -128 && hi <= 127:
-		suffix = "b8"
-		return int(int8(next(tag, suffix)))
-	case lo >= -32768 && hi <= 32767:
-		suffix = "b16"
-		return int(int16(next(tag, suffix)))
-	case lo >= -1<<31 && hi <= 1<<31-1:
-		suffix = "b32"
-		return int(int32(next(tag, suffix)))
+	w := 64
+	for k := 2; k < 64; k++ {
+		if lo >= -(1<<(k-1)) && hi <= 1<<(k-1)-1 {
+			w = k
+			break
+		}
 	}
-	return int(next(tag, suffix))
+	v := next(tag, fmt.Sprintf("b%d", w))
+	if w < 64 {
+		sh := uint(64 - w)
+		return int(int64(v<<sh) >> sh)
+	}
+	return int(v)
 }
 
-func Bool(tag string) bool            { return next(tag, "o") != 0 }
-func Float64(tag string) float64      { return f64frombits(next(tag, "f64")) }
+func Bool(tag string) bool       { return next(tag, "o") != 0 }
+func Float64(tag string) float64 { return f64frombits(next(tag, "f64")) }
 
 // Choose forks concretely over 0..n-1.
 func Choose(tag string, n int) int {
